@@ -160,4 +160,27 @@ theorem asm_merged_guard {σ : State} {c₁ c₂ : Expr} (h : C06Asm.OrEvaluable
     guardHolds σ (some (.bin .or c₁ c₂)) ↔ guardHolds σ (some c₁) ∨ guardHolds σ (some c₂) :=
   C06Asm.merged_guard_enabled h
 
+open Falcon.CfgEdit Falcon.Assemble in
+/-- `asm_refines` for tables with differently guarded duplicate transfers (merged guards), through a table `tb'` that
+    requests their disjunction; partial: `assemble tb = assemble tb'` is a per-case check — see `C06Asm.asm_refines_merged_partial` -/
+theorem asm_refines_merged_partial {tb tb' : List (Nat × BTR)} {manual : List ManualEdge} {fnAddr : Nat} {f : Function}
+    (hc : Coherent tb' manual) (hg : C06Asm.GraphsWF tb') (h' : assemble tb' manual fnAddr = .ok f)
+    (hG : ∀ a, graphAt tb' a = graphAt tb a) (hM : MergedOf tb tb' manual) :
+    ∃ Ψ : RConfig → Config,
+      (∀ x, (Ψ x).state = x.state) ∧
+      (∀ g en σ, graphAt tb fnAddr = some g → g.entry = some en →
+        ∃ fe, f.cfg.entry = some fe ∧ Ψ ⟨fnAddr, en, 0, σ⟩ = ⟨fe, 0, σ⟩) ∧
+      (∀ x y, RValid tb x → (∀ y', RRun tb manual x y' → GuardsTyped tb manual y'.state) →
+        RRun tb manual x y → FRun f (Ψ x) (Ψ y)) ∧
+      (∀ x z, RValid tb x → (∀ y', RRun tb manual x y' → GuardsTyped tb manual y'.state) →
+        FRun f (Ψ x) z → ∃ y, RRun tb manual x y ∧ Ψ y = z) :=
+  C06Asm.asm_refines_merged_partial hc hg h' hG hM
+
+open Falcon.CfgEdit Falcon.Assemble in
+/-- the executable checks of the driver mean what they say -/
+theorem asm_merged_checks {tb tb' : List (Nat × BTR)} {manual : List ManualEdge} {σ : State} {c : Expr} :
+    (mergedOfB tb tb' manual = true → MergedOf tb tb' manual) ∧ (guardBitB σ c = true ↔ GuardBit σ c) ∧
+    (∀ a, graphAt (normalize tb) a = graphAt tb a) :=
+  ⟨C06Asm.mergedOfB_sound, C06Asm.guardBitB_iff σ c, C06Asm.graphAt_normalize tb⟩
+
 end Falcon.C06
